@@ -43,10 +43,27 @@ func init() {
 		"fmt.Sprintln": func(fr *frame, args []value) value {
 			return fr.i.sprint(args[0].([]value), true)
 		},
-		"fmt.Printf":   func(fr *frame, args []value) value { return tuple{0, iface{}} },
-		"fmt.Println":  func(fr *frame, args []value) value { return tuple{0, iface{}} },
-		"fmt.Print":    func(fr *frame, args []value) value { return tuple{0, iface{}} },
-		"fmt.Fprintf":  func(fr *frame, args []value) value { unsupported("fmt.Fprintf"); return nil },
+		"fmt.Printf":  func(fr *frame, args []value) value { return tuple{0, iface{}} },
+		"fmt.Println": func(fr *frame, args []value) value { return tuple{0, iface{}} },
+		"fmt.Print":   func(fr *frame, args []value) value { return tuple{0, iface{}} },
+		// go-describe renders values for error messages only: opaque text
+		"github.com/kstenerud/go-describe.D":        func(fr *frame, args []value) value { return "<described value>" },
+		"github.com/kstenerud/go-describe.Describe": func(fr *frame, args []value) value { return "<described value>" },
+		"sort.SliceStable":                          extSortSlice,
+		"sort.Slice":                                extSortSlice,
+		"fmt.Fprintf": func(fr *frame, args []value) value {
+			// format with the Sprintf model, then call the writer's real Write method
+			text := fr.i.sprintf(args[1], args[2].([]value))
+			w := args[0].(iface)
+			if w.t == nil {
+				panic(runtimeErr("invalid memory address or nil pointer dereference"))
+			}
+			m := fr.i.prog.LookupMethod(w.t, nil, "Write")
+			if m == nil {
+				unsupported("fmt.Fprintf: writer %v has no Write method", w.t)
+			}
+			return callSSA(fr.i, fr, 0, m, []value{w.v, strBytes(text)}, nil)
+		},
 		"fmt.Fprintln": func(fr *frame, args []value) value { unsupported("fmt.Fprintln"); return nil },
 		"fmt.Fprint":   func(fr *frame, args []value) value { unsupported("fmt.Fprint"); return nil },
 		// ---- sync ----
@@ -79,15 +96,85 @@ func init() {
 			}
 			return call(fr.i, fr, 0, nf, nil)
 		},
-		"(*sync.Pool).Put":        noop,
-		"(*sync.WaitGroup).Add":   func(fr *frame, args []value) value { unsupported("sync.WaitGroup"); return nil },
-		"(*sync.WaitGroup).Wait":  func(fr *frame, args []value) value { unsupported("sync.WaitGroup"); return nil },
-		"(*sync.WaitGroup).Done":  func(fr *frame, args []value) value { unsupported("sync.WaitGroup"); return nil },
-		"(*sync.Map).Load":        func(fr *frame, args []value) value { unsupported("sync.Map"); return nil },
-		"(*sync.Map).Store":       func(fr *frame, args []value) value { unsupported("sync.Map"); return nil },
-		"(*sync.Map).LoadOrStore": func(fr *frame, args []value) value { unsupported("sync.Map"); return nil },
-		"(*sync.Map).Range":       func(fr *frame, args []value) value { unsupported("sync.Map"); return nil },
-		"(*sync.Map).Delete":      func(fr *frame, args []value) value { unsupported("sync.Map"); return nil },
+		"(*sync.Pool).Put": noop,
+		// WaitGroup, sequential model: a counter; Wait on a non-zero counter
+		// would block forever in a single goroutine, which is outside the model.
+		"(*sync.WaitGroup).Add": func(fr *frame, args []value) value {
+			c := fr.i.waitGroup(args[0].(*value))
+			old := *c
+			fr.i.logUndo(func() { *c = old })
+			*c += int(asInt64(args[1]))
+			if *c < 0 {
+				panic(targetPanic{iface{t: types.Typ[types.String], v: "sync: negative WaitGroup counter"}})
+			}
+			return nil
+		},
+		"(*sync.WaitGroup).Done": func(fr *frame, args []value) value {
+			c := fr.i.waitGroup(args[0].(*value))
+			old := *c
+			fr.i.logUndo(func() { *c = old })
+			*c--
+			if *c < 0 {
+				panic(targetPanic{iface{t: types.Typ[types.String], v: "sync: negative WaitGroup counter"}})
+			}
+			return nil
+		},
+		"(*sync.WaitGroup).Wait": func(fr *frame, args []value) value {
+			if *fr.i.waitGroup(args[0].(*value)) != 0 {
+				unsupported("sync.WaitGroup.Wait with a non-zero counter (needs another goroutine)")
+			}
+			return nil
+		},
+		// sync.Map, sequential model: an insertion-ordered map kept beside the
+		// struct, keyed by the struct's address.
+		"(*sync.Map).Load": func(fr *frame, args []value) value {
+			if v, ok := fr.i.syncMap(args[0].(*value)).lookup(fr.i, args[1]); ok {
+				return tuple{v, true}
+			}
+			return tuple{iface{}, false}
+		},
+		"(*sync.Map).Store": func(fr *frame, args []value) value {
+			fr.i.syncMap(args[0].(*value)).insert(fr.i, args[1], args[2])
+			return nil
+		},
+		"(*sync.Map).LoadOrStore": func(fr *frame, args []value) value {
+			m := fr.i.syncMap(args[0].(*value))
+			if v, ok := m.lookup(fr.i, args[1]); ok {
+				return tuple{v, true}
+			}
+			m.insert(fr.i, args[1], args[2])
+			return tuple{args[2], false}
+		},
+		"(*sync.Map).LoadAndDelete": func(fr *frame, args []value) value {
+			m := fr.i.syncMap(args[0].(*value))
+			if v, ok := m.lookup(fr.i, args[1]); ok {
+				m.delete(fr.i, args[1])
+				return tuple{v, true}
+			}
+			return tuple{iface{}, false}
+		},
+		"(*sync.Map).Range": func(fr *frame, args []value) value {
+			m := fr.i.syncMap(args[0].(*value))
+			for k := 0; k < len(m.entries); k++ { // entries added during the walk are visited too, as sync.Map allows
+				e := m.entries[k]
+				if !e.alive {
+					continue
+				}
+				r := call(fr.i, fr, 0, args[1], []value{e.key, e.val})
+				if t, ok := r.(*sym.Term); ok {
+					if !psOf(t).branch(t) {
+						break
+					}
+				} else if !r.(bool) {
+					break
+				}
+			}
+			return nil
+		},
+		"(*sync.Map).Delete": func(fr *frame, args []value) value {
+			fr.i.syncMap(args[0].(*value)).delete(fr.i, args[1])
+			return nil
+		},
 		// ---- runtime / misc ----
 		"runtime.SetFinalizer":                      noop,
 		"runtime.KeepAlive":                         noop,
@@ -108,8 +195,8 @@ func init() {
 		"(*strings.Builder).copyCheck": noop,
 		"internal/abi.NoEscape":        func(fr *frame, args []value) value { return args[0] },
 		"internal/abi.Escape":          func(fr *frame, args []value) value { return args[0] },
-		"internal/stringslite.Clone": func(fr *frame, args []value) value { return args[0] },
-		"strings.Clone":              func(fr *frame, args []value) value { return args[0] },
+		"internal/stringslite.Clone":   func(fr *frame, args []value) value { return args[0] },
+		"strings.Clone":                func(fr *frame, args []value) value { return args[0] },
 		// ---- internal/bytealg (assembly on amd64) ----
 		"internal/bytealg.IndexByte": func(fr *frame, args []value) value {
 			return indexByte(fr.i, toValues(fr.i, args[0]), args[1])
@@ -330,3 +417,51 @@ func hasStringer(t types.Type) bool {
 
 var _ = strings.Contains
 var _ = sym.OpAdd
+
+// extSortSlice models sort.Slice / sort.SliceStable as a stable insertion sort
+// that calls the target's less function (a symbolic result forks the path).
+func extSortSlice(fr *frame, args []value) value {
+	x, ok := args[0].(iface).v.([]value)
+	if !ok {
+		panic(targetPanic{v: iface{t: types.Typ[types.String], v: "sort.Slice: argument is not a slice"}})
+	}
+	less := func(a, b int) bool {
+		r := call(fr.i, fr, 0, args[1], []value{a, b})
+		if t, ok := r.(*sym.Term); ok {
+			return psOf(t).branch(t)
+		}
+		return r.(bool)
+	}
+	for a := 1; a < len(x); a++ {
+		for b := a; b > 0 && less(b, b-1); b-- {
+			va, vb := x[b], x[b-1]
+			fr.i.set(&x[b], vb)
+			fr.i.set(&x[b-1], va)
+		}
+	}
+	return nil
+}
+
+func (i *interpreter) syncMap(p *value) *omap {
+	if i.syncMaps == nil {
+		i.syncMaps = map[*value]*omap{}
+	}
+	m := i.syncMaps[p]
+	if m == nil {
+		m = makeMap(types.NewInterfaceType(nil, nil), 0).(*omap)
+		i.syncMaps[p] = m
+	}
+	return m
+}
+
+func (i *interpreter) waitGroup(p *value) *int {
+	if i.waitGroups == nil {
+		i.waitGroups = map[*value]*int{}
+	}
+	c := i.waitGroups[p]
+	if c == nil {
+		c = new(int)
+		i.waitGroups[p] = c
+	}
+	return c
+}
